@@ -45,6 +45,17 @@ var EquivSpellings = map[string][]string{
 
 var ResourceNames = []string{"r1", "r2", "r3", "r4", "r5"}
 
+// ForeignTargets are targets of unsafe requests on origins where nothing is stored (one per scheme).
+var ForeignTargets = []string{"http://c.test/unsafe", "https://c.test:8443/unsafe", "https://c.test/unsafe", "http://a.test:8080/unsafe", "https://a.test/unsafe"}
+
+// NetworkPath returns the scheme-relative form ("//host/path?query") of an absolute URI.
+func NetworkPath(u string) string {
+	if i := strings.Index(u, "://"); i >= 0 {
+		return u[i+1:]
+	}
+	return u
+}
+
 func init() {
 	// r5: a URI whose cache key is exactly 216 bytes (a whole number of 48-character base64
 	// fragments, longer than one file name): the file-system backend's naming boundary
@@ -243,6 +254,35 @@ func validationAnswer(t *rapid.T, h *Hist, label string) *world.Reply {
 	return &world.Reply{Kind: "err"}
 }
 
+// expiresInstead now and then expresses the lifetime of a reply as Expires - Date instead of
+// max-age, with a Date that is ahead of or behind the cache's clock (the lifetime is the
+// distance between two readings of the origin's clock, whatever the cache's own clock says).
+func expiresInstead(t *rapid.T, label string, cc []string, life int64, rp *world.Reply) []string {
+	if !Pct(t, label+"-exp", 12) {
+		return cc
+	}
+	var out []string
+	had := false
+	for _, d := range cc {
+		if strings.HasPrefix(d, "max-age=") {
+			had = true
+			continue
+		}
+		out = append(out, d)
+	}
+	if !had {
+		return cc
+	}
+	skew := Pick(t, label+"-skew", int64(-3600), -60, -1, 0, 1, 60, 3600)
+	for i, kv := range rp.Header {
+		if kv[0] == "Date" {
+			rp.Header[i] = H("Date", DateOff(skew))
+		}
+	}
+	rp.Header = append(rp.Header, H("Expires", DateOff(skew+life)))
+	return out
+}
+
 func c02like(t *rapid.T, prop string, forceOIC bool) *world.Scenario {
 	sc := &world.Scenario{Prop: prop, Backend: "mem"}
 	h := &Hist{}
@@ -252,6 +292,7 @@ func c02like(t *rapid.T, prop string, forceOIC bool) *world.Scenario {
 	first := &world.Req{Method: "GET", URL: u}
 	first.Uncond = world.Reply{Kind: "resp", Status: 200, Body: world.Body{Len: 48},
 		Header: [][2]string{H("Date", "$T+0"), H("X-Secret", "mark$S;"), H("X-Other", "mark$S;"), H("X-Plain", "p$S")}}
+	cc = expiresInstead(t, "st", cc, life, &first.Uncond)
 	if len(cc) > 0 {
 		first.Uncond.Header = append(first.Uncond.Header, H("Cache-Control", JoinCC(cc)))
 	}
@@ -290,9 +331,10 @@ func c02like(t *rapid.T, prop string, forceOIC bool) *world.Scenario {
 			}
 		}
 		// an unconditional miss yields a new storable-or-not reply
-		ncc, _ := storedDirectives(t, h, lbl+"-st")
+		ncc, nlife := storedDirectives(t, h, lbl+"-st")
 		rq.Uncond = world.Reply{Kind: "resp", Status: 200, Body: world.Body{Len: 48},
 			Header: [][2]string{H("Date", "$T+0"), H("X-Secret", "mark$S;"), H("X-Other", "mark$S;"), H("X-Plain", "p$S")}}
+		ncc = expiresInstead(t, lbl+"-st", ncc, nlife, &rq.Uncond)
 		if len(ncc) > 0 {
 			rq.Uncond.Header = append(rq.Uncond.Header, H("Cache-Control", JoinCC(ncc)))
 		}
@@ -430,7 +472,36 @@ func C13(t *rapid.T) *world.Scenario {
 // ---------------------------------------------------------------------------
 // C20
 
+// c20Many: a burst of stale hits while the origin answers no revalidation at all: however many
+// background requests are outstanding, the next caller is served at once.
+func c20Many(t *rapid.T) *world.Scenario {
+	sc := &world.Scenario{Prop: "C20", Backend: "mem"}
+	nurl := Pick(t, "murls", 1, 1, 3, 40)
+	burst := Pick(t, "mburst", 33, 40, 70, 130, 300)
+	mk := func(i int, hang bool) world.Step {
+		rq := &world.Req{Method: "GET", URL: "http://a.test/c20/m" + itoa(int64(i%nurl))}
+		rq.Uncond = world.Reply{Kind: "resp", Status: 200, Body: world.Body{Len: 30}, Header: [][2]string{H("Date", "$T+0"),
+			H("Cache-Control", "max-age=1, stale-while-revalidate=100000"), H("Etag", `"v$S"`)}}
+		rq.Cond = Simple304()
+		if hang {
+			rq.Bg = &world.Reply{Kind: "hang"}
+		}
+		return ReqStep(rq)
+	}
+	for i := 0; i < nurl; i++ {
+		sc.Steps = append(sc.Steps, mk(i, false))
+	}
+	sc.Steps = append(sc.Steps, SleepStep(3))
+	for i := 0; i < burst; i++ {
+		sc.Steps = append(sc.Steps, mk(i, true))
+	}
+	return sc
+}
+
 func C20(t *rapid.T) *world.Scenario {
+	if Pct(t, "many", 3) {
+		return c20Many(t)
+	}
 	sc := &world.Scenario{Prop: "C20", Backend: "mem"}
 	u := "http://a.test/c20"
 	T := int64(5)
